@@ -69,19 +69,18 @@ Section MAIN.
   Notation g_all2 := (g_all2 rc rm fo md (st_usenum st)).
 
   Definition good (s : schema) : Prop :=
-    forall v, g_all2 s = true -> vg v = true -> g_div s v = true ->
+    forall v, g_all2 s = true -> vg v = true ->
               is_panic (V s v) = false /\ accepts (V s v) = Sat s v.
 
   Lemma goods_list (l : list schema) v :
     Forall good l -> forallb g_all2 l = true -> vg v = true ->
-    (forall x, In x l -> g_div x v = true) ->
     forallb np (map (fun x => V x v) l) = true /\
     (forall x, In x l -> accepts (V x v) = Sat x v).
   Proof.
-    induction l as [|x l IH]; intros HF Hg Hv Hd; [split; [reflexivity|intros ? []]|].
+    induction l as [|x l IH]; intros HF Hg Hv; [split; [reflexivity|intros ? []]|].
     inversion HF as [|? ? Hx Hl]; subst. cbn [forallb] in Hg. apply andb_prop in Hg as [Hgx Hgl].
-    destruct (Hx v Hgx Hv (Hd x (or_introl eq_refl))) as [Hp Ha].
-    destruct (IH Hl Hgl Hv (fun y Hy => Hd y (or_intror Hy))) as [Hp' Ha'].
+    destruct (Hx v Hgx Hv) as [Hp Ha].
+    destruct (IH Hl Hgl Hv) as [Hp' Ha'].
     cbn [map forallb]. split.
     - unfold np at 1. now rewrite Hp, Hp'.
     - intros y [<-|Hy]; auto.
@@ -265,7 +264,7 @@ Section MAIN.
   Lemma main_visit : forall s, good s.
   Proof.
     apply schema_ind'. intros c n one any all it props ap Hn Hone Hany Hall Hit Hprops Hap.
-    intros v Hg Hv Hd.
+    intros v Hg Hv.
     rewrite g_all_unfold in Hg. apply andb_prop in Hg as [Hhere Hsub].
     apply andb_prop in Hsub as [Hsub Hgap]. apply andb_prop in Hsub as [Hsub Hgprops].
     apply andb_prop in Hsub as [Hsub Hgit]. apply andb_prop in Hsub as [Hsub Hgall].
@@ -275,22 +274,18 @@ Section MAIN.
     unfold here_ok in Hhere. cbn [core_of] in Hhere.
     apply andb_prop in Hhere as [Hhere Hnodup].
     apply andb_prop in Hhere as [Hhere Hsmall].
-    apply andb_prop in Hhere as [Hempty Hexcl].
+    rename Hhere into Hempty.
     set (S := Sch c n one any all it props ap) in *.
     (* sub-results of the compositions *)
     assert (An : opt_all np (option_map (fun x => V x v) n) = true /\
                  match n with Some x => accepts (V x v) = Sat x v | None => True end).
     { destruct n as [x|]; [|split; exact I || reflexivity]. cbn [optP opt_all option_map] in *.
       destruct (Hn v Hgn Hv) as [Hp Ha].
-      - eapply g_div_mono; [eapply mults_not; reflexivity|apply incl_refl|exact Hd].
-      - split; [unfold np; now rewrite Hp|exact Ha]. }
+      split; [unfold np; now rewrite Hp|exact Ha]. }
     destruct An as [Anp Ana].
     destruct (goods_list one v Hone Hgone Hv) as [Onp Oa].
-    { intros x Hx. eapply g_div_mono; [eapply mults_one; exact Hx|apply incl_refl|exact Hd]. }
     destruct (goods_list any v Hany Hgany Hv) as [Ynp Ya].
-    { intros x Hx. eapply g_div_mono; [eapply mults_any; exact Hx|apply incl_refl|exact Hd]. }
     destruct (goods_list all v Hall Hgall Hv) as [Lnp La].
-    { intros x Hx. eapply g_div_mono; [eapply mults_all; exact Hx|apply incl_refl|exact Hd]. }
     unfold S. cbn [visit]. fold S.
     (* pre-check *)
     assert (Hfin : all_finite v = true).
@@ -347,11 +342,7 @@ Section MAIN.
         + apply seq_nopanic; [apply enum_step_nopanic|]. destruct (permits c "boolean"); reflexivity.
         + rewrite seq_accepts, (enum_step_accepts _ _ _ Henum). f_equal. destruct (permits c "boolean"); reflexivity.
       - rewrite Bool.andb_false_r. split.
-        + apply seq_nopanic; [apply enum_step_nopanic|]. apply run_checks_nopanic, num_checks_nopanic; [exact Hexcl|].
-          destruct (c_mult c) as [m|] eqn:Hm; [|exact I].
-          unfold g_div in Hd. cbn [nums_of forallb] in Hd. rewrite Bool.andb_true_r in Hd.
-          rewrite forallb_forall in Hd. specialize (Hd m (mults_here _ _ _ _ _ _ _ _ _ Hm)).
-          now apply Bool.negb_true_iff in Hd.
+        + apply seq_nopanic; [apply enum_step_nopanic|]. apply run_checks_nopanic, num_checks_nopanic.
         + rewrite seq_accepts, (enum_step_accepts _ _ _ Henum), run_checks_accepts. cbn [is_nil andb].
           now rewrite num_checks_ok.
       - rewrite Bool.andb_false_r. split.
@@ -365,8 +356,7 @@ Section MAIN.
                          = match it with Some its => forallb (fun x => Sat its x) l | None => true end).
         { destruct it as [its|]; [|split; reflexivity]. cbn [optP opt_all is_none negb] in *.
           assert (Hx : forall x, In x l -> is_panic (V its x) = false /\ accepts (V its x) = Sat its x).
-          { intros x Hx. apply Hit; [exact Hgit|eapply vg_arr; eauto|].
-            eapply g_div_mono; [eapply mults_items; reflexivity|eapply nums_arr; exact Hx|exact Hd]. }
+          { intros x Hx. apply Hit; [exact Hgit|eapply vg_arr; eauto]. }
           split.
           - rewrite forallb_map'. apply forallb_forall. intros x Hin. unfold np. now rewrite (proj1 (Hx x Hin)).
           - rewrite forallb_map'. apply forallb_ext_in. intros x Hin. apply (Hx x Hin). }
@@ -384,12 +374,10 @@ Section MAIN.
                      is_panic (V p x) = false /\ accepts (V p x) = Sat p x).
         { intros k p x Hin Hinl. rewrite Forall_forall in Hprops. apply (Hprops _ Hin).
           - rewrite forallb_forall in Hgprops. apply (Hgprops _ Hin).
-          - eapply vg_obj; eauto.
-          - eapply g_div_mono; [eapply mults_props; exact Hin|eapply nums_obj; exact Hinl|exact Hd]. }
+          - eapply vg_obj; eauto. }
         assert (Hq : forall a k x, ap = Some a -> In (k, x) l ->
                      is_panic (V a x) = false /\ accepts (V a x) = Sat a x).
-        { intros a k x -> Hinl. cbn [optP opt_all] in *. apply Hap; [exact Hgap|eapply vg_obj; eauto|].
-          eapply g_div_mono; [eapply mults_ap; reflexivity|eapply nums_obj; exact Hinl|exact Hd]. }
+        { intros a k x -> Hinl. cbn [optP opt_all] in *. apply Hap; [exact Hgap|eapply vg_obj; eauto]. }
         split.
         + apply seq_nopanic; [apply enum_step_nopanic|]. apply run_checks_nopanic, obj_checks_nopanic.
           * intros k o Ho. rewrite assoc_r_props in Ho.
